@@ -660,7 +660,10 @@ inline auto class_in_child(Plan const& plan, Scenario const& sc, std::string con
     bool const died = !(WIFEXITED(status) && WEXITSTATUS(status) == 0);
     if (died || got.find("CRASH ") != std::string::npos) {
         // crash class: property by step class, op by the op that was executing (read from the shared progress page)
-        std::string p = g_crash.stepClass == 2 ? "C05" : "C02";
+        // (a death inside a valid call also means that the call did not deliver the specified result: for the functional
+        // properties it counts as their violation as well, see crash_class in bin/check)
+        bool const functional = prop == "C01" || prop == "C04" || prop == "C07" || prop == "C09" || prop == "C17" || prop == "C20";
+        std::string p         = g_crash.stepClass == 2 ? "C05" : (functional ? prop : "C02");
         if (p != prop) {
             return "";
         }
